@@ -157,7 +157,11 @@ def classify_known(case, stage, exc, first_type=None, rendered=None) -> str | No
                     return "asa-addressag-prefix"
         if cls in ("AddressAg", "AddrGroup", "addrgroups", "acls") and platform == "ios" and rendered and exc is not None:
             # IOS group member 'A 0.0.0.0' is read as 0.0.0.0/0 and renders '0.0.0.0 0.0.0.0', which is denied
-            if "0.0.0.0 0.0.0.0" in rendered and "is denied for platform" in str(exc):
+            import re  # pylint: disable=import-outside-toplevel
+
+            norm = " ".join(text.replace("\n", " \n ").split(" "))
+            if re.search(r"(^|\s)0\.0\.0\.0 0\.0\.0\.0(\s|$)", rendered) and \
+                    re.search(r"\d+\.\d+\.\d+\.\d+\s+0\.0\.0\.0(\s|$)", norm):
                 return "ios-addressag-zero-mask"
         if first_type == "standard":
             return "standard-ace-option-reparse"
@@ -247,6 +251,8 @@ DETERMINISTIC = [
     {"cls": "AddressAg", "text": "10.0.0.0/24", "kwargs": {"platform": "asa"}},
     {"cls": "AddressAg", "text": "17 10.1.0.0/16", "kwargs": {"platform": "asa"}},
     {"cls": "AddressAg", "text": "10.0.0.0 0.0.0.0", "kwargs": {"platform": "ios"}},
+    {"cls": "AddrGroup", "text": "object-group network G1\n 10.0.0.0 0.0.0.0", "kwargs": {"platform": "ios"}},
+    {"cls": "addrgroups", "text": "object-group network G1\n 10.0.0.0 0.0.0.0\n host 1.1.1.1", "kwargs": {"platform": "ios"}},
     {"cls": "Port", "text": "range 4294967296 1284", "kwargs": {"platform": "ios", "protocol": "tcp"}},
     {"cls": "Ace", "text": "permit tcp any any range 1 99999999999", "kwargs": {"platform": "nxos"}},
     {"cls": "acls", "text": "\n".join(" " * i + f"l{i}" for i in range(1500)), "kwargs": {"platform": "ios"}},
